@@ -507,7 +507,7 @@ class BigQueryParser(parser.Parser):
 
             info_schema_view = f"{table_parts[-2].name}.{table_parts[-1].name}"
             new_this = exp.Identifier(this=info_schema_view, quoted=True).update_positions(
-                line=table_parts[-2].meta_get("line"),
+                line=table_parts[-1].meta_get("line"),
                 col=table_parts[-1].meta_get("col"),
                 start=table_parts[-2].meta_get("start"),
                 end=table_parts[-1].meta_get("end"),
